@@ -371,6 +371,10 @@ func main() {
 			for _, v := range []string{"65537", "131073", "-65535", "4294967297", "1.0e0", "1e0"} {
 				bad = append(bad, strings.Replace(good, `"ver":1`, `"ver":`+v, 1))
 			}
+			// member names are exact: a required member spelt in another case is a missing member
+			for _, ren := range [][2]string{{`"touchPolicy"`, `"TOUCHPOLICY"`}, {`"isNonce"`, `"IsNonce"`}, {`"transID"`, `"transid"`}, {`"ver"`, `"VER"`}, {`"prins"`, `"Prins"`}, {`"isHWKey"`, `"ishwkey"`}, {`"reqIP"`, `"reqIp"`}} {
+				bad = append(bad, strings.Replace(good, ren[0], ren[1], 1))
+			}
 			for _, tail := range []string{"x", "}", good, " trailing", "\n[]", ",", "\x00"} {
 				bad = append(bad, good+tail)
 			}
